@@ -322,6 +322,23 @@ func EncodeUTF8String(buf []byte) (b []byte, size int, err error) {
 	return bufw, 2 + buflen, nil
 }
 
+// readRemaining reads the n bytes that follow the fixed header. Beyond a small size the buffer grows with
+// the bytes actually received, so that memory is not allocated on the strength of the declared length alone.
+func readRemaining(r io.Reader, n int) ([]byte, error) {
+	var buf bytes.Buffer
+	if n <= 4096 {
+		buf.Grow(n)
+	}
+	m, err := io.CopyN(&buf, r, int64(n))
+	if err == io.EOF && m > 0 {
+		err = io.ErrUnexpectedEOF
+	}
+	if err != nil {
+		return nil, err
+	}
+	return buf.Bytes(), nil
+}
+
 func readUint16(r *bytes.Buffer) (uint16, error) {
 	if r.Len() < 2 {
 		return 0, codes.ErrMalformed
